@@ -64,6 +64,10 @@ func DecodeSgpdSR(hdr BoxHeader, startPos uint64, sr bits.SliceReader) (Box, err
 		if err != nil {
 			return nil, err
 		}
+		if sgEntry.Size() != uint64(descriptionLength) {
+			return nil, fmt.Errorf("sgpd: descriptionLength %d differs from the %d bytes of the %s entry",
+				descriptionLength, sgEntry.Size(), b.GroupingType)
+		}
 		b.SampleGroupEntries = append(b.SampleGroupEntries, sgEntry)
 	}
 
